@@ -57,6 +57,11 @@ def strip_state(v: Val) -> Val:
         if isinstance(v, Term) and v.head in ('loopstate', 'stored', 'mutated'):
             v = v.args[0]
             continue
+        if isinstance(v, Gam):
+            # the same buffer whether or not a conditional store was made into it
+            a, b = strip_state(v.a), strip_state(v.b)
+            if veq(a, b):
+                return a
         return v
 
 
@@ -273,6 +278,10 @@ class Strategy:
             loops = [l for l in e.loops]
             idx = e.data['index']
             val = e.data['value']
+            vec = self._vector_store(e, idx, val, loops)
+            if vec is not None:
+                self.stores.append(vec)
+                continue
             if not isinstance(idx, Num) or idx.length is not None:
                 raise AnalysisError(f"store with a non-scalar index at {e.loc()}: {idx}")
             vnum = val if isinstance(val, Num) else None
@@ -307,6 +316,46 @@ class Strategy:
                            sym.subst(vnum.r, mapping), strip_state(e.data['base']), sym.subst(kctx.lo, mapping),
                            sym.subst(kctx.hi, mapping), tuple(g.subst(lambda r: sym.subst(r, mapping)) for g in e.guard))
             self.stores.append(sf)
+
+    def _vector_store(self, e, idx, val, loops) -> Optional[StoreFact]:
+        """`z[lo:hi] = v` (or `z[lo + arange(m)] = v`) with an element-wise known vector v of hi - lo elements, made once per interval: the same facts as
+        `for i in range(lo, hi): z[i] = v[i - lo]`.  A guard `lo < hi` around it is the loop's own emptiness test."""
+        if len(loops) != 1 or loops[0].kind != 'range':
+            return None
+        if isinstance(idx, Term) and idx.head == 'lib:numpy.arange':
+            idx = term_as_num(idx, True, 'ndarray')
+        if isinstance(idx, Term) and idx.head == 'slice' and len(idx.args) == 3:
+            lo, hi, step = idx.args
+            if not (isinstance(step, Const) and step.v is None) or not all(isinstance(b, Num) and b.length is None for b in (lo, hi)):
+                return None
+            lo_r, hi_r = lo.r, hi.r
+        elif isinstance(idx, Num) and idx.length is not None:
+            lo_r = idx.r - sym.idx()
+            if sym.free_idx(lo_r):
+                return None
+            hi_r = lo_r + idx.length
+        else:
+            return None
+        if not isinstance(val, Num):
+            return None
+        if val.length is not None and not (val.length == hi_r - lo_r):
+            return None
+        u = has_unsupported(val)
+        if u:
+            raise AnalysisError(f"store value at {e.loc()} contains an uninterpreted construct: {u}")
+        kctx = loops[0]
+        kmap = {_atom(kctx.sym): self.k}
+        lo_k, hi_k = sym.subst(lo_r, kmap), sym.subst(hi_r, kmap)
+        i0, i1 = lo_k - self.k * self.n, hi_k - self.k * self.n
+        v = sym.subst(val.r, kmap)
+        v = sym.subst(v, {sym.idx_atom(): self.i - i0})
+        guards = []
+        for g in e.guard:
+            g = g.subst(lambda r: sym.subst(r, kmap))
+            if isinstance(g, P) and g.op == '<' and all(isinstance(a_, Num) and a_.length is None for a_ in g.args) and (g.args[1].r - g.args[0].r) == i1 - i0:
+                continue            # `if stop <= start: return` in front of the vector store
+            guards.append(g)
+        return StoreFact(e, i0, i1, self.k * self.n + self.i, v, strip_state(e.data['base']), sym.subst(kctx.lo, kmap), sym.subst(kctx.hi, kmap), tuple(guards))
 
     def window_tables(self) -> Dict[str, Val]:
         """the three results of get_adaptive_transition_points as seen by rfa()"""
